@@ -269,7 +269,22 @@ def run_ast_case(case, res, prop):
         return
     # C14 clause: the printed listing re-assembles to the same listing
     try:
-        s2 = load("\n".join(t for _, t in reprs[0]), ibase=B or None)  # (re-assembled where it was printed)
+        if not B and case["seed"] % 3 == 0:
+            # re-assembled by ONE parser object that has just rejected two other texts late (unknown label, odd offset)
+            from architecture_simulator.isa.riscv.riscv_parser import RiscvParser
+
+            s2 = make_riscv("single")
+            P_ = RiscvParser()
+            for bad_ in ("addi x1, x1, 1\nsub x2, x2, x2\nbeq x0, x0, no_such_label_", "addi x3, x3, 3\njal x0, 3"):
+                try:
+                    P_.parse(bad_, s2.state)
+                except Exception:
+                    pass
+            s2.state.instruction_memory.reset()
+            P_.parse("\n".join(t for _, t in reprs[0]), s2.state)
+            res.count("listing_reassembled_by_reused_parser")
+        else:
+            s2 = load("\n".join(t for _, t in reprs[0]), ibase=B or None)  # (re-assembled where it was printed)
         res.count("listing_round_trips")
         if s2.state.instruction_memory.get_representation() != reprs[0]:
             res.violation("C14", "listing-round-trip", "re-assembling the printed listing gives a different listing", case)
